@@ -298,9 +298,109 @@ var c15Corpus = &vlib.Check{
 	},
 }
 
-func init() { vlib.Register(c15Model, c15Corpus) }
+// macro blocks: explicit-context MACRO definitions forming an acyclic call graph, TYPE blocks and methods that paste
+// them; every block is independent of its position (the statement excludes only implicit-context MACROs).
+var c15Macros = &vlib.Check{
+	Prop: "C15", Name: "macro-blocks-permute", Quick: 1200, Thorough: 100000,
+	Oracle: c15Oracle,
+	Classify: func(c *vlib.Case) (bool, []string) {
+		cls := []string{fmt.Sprintf("macros-%d", asInt(c.Params["macros"]))}
+		if c.Params["shared"] == true {
+			cls = append(cls, "macro-pasted-by-two-macros")
+		}
+		if c.Params["callee_after_callers"] == true {
+			cls = append(cls, "callee-declared-after-callers")
+		}
+		b := vlib.Build(c.Project)
+		defer b.Close()
+		if !b.Out.OK() {
+			return false, append(cls, "original-rejected")
+		}
+		return c.Params["shared"] == true, cls
+	},
+	Gen: func(t *rapid.T) *vlib.Case {
+		r := vlib.RapidRnd{T: t}
+		n := 2 + r.Intn(4)
+		edges := make([][]int, n)
+		indeg := make([]int, n)
+		for i := 0; i < n; i++ {
+			for j := i + 1; j < n; j++ {
+				if vlib.Chance(r, 1, 2) {
+					edges[i] = append(edges[i], j)
+					indeg[j]++
+				}
+			}
+		}
+		shared := false
+		for _, d := range indeg {
+			if d >= 2 {
+				shared = true
+			}
+		}
+		var blocks []string
+		for i := 0; i < n; i++ {
+			var sb strings.Builder
+			fmt.Fprintf(&sb, "MACRO @m%d\n(\n", i)
+			if len(edges[i]) == 0 || vlib.Chance(r, 1, 2) {
+				fmt.Fprintf(&sb, "  %d @t%d\n", 201+i, i%2)
+			}
+			for _, j := range edges[i] {
+				fmt.Fprintf(&sb, "  PASTE @m%d\n", j)
+			}
+			sb.WriteString(")\n")
+			blocks = append(blocks, sb.String())
+		}
+		blocks = append(blocks, "TYPE @t0\n  {\"a\": 1}\n", "TYPE @t1\n  [@t0]\n")
+		nu := 1 + r.Intn(3)
+		for k := 0; k < nu; k++ {
+			// every method pastes one macro: a macro reached over two routes would repeat its response code
+			blocks = append(blocks, fmt.Sprintf("%s /u%d\n  200 any\n  PASTE @m%d\n", vlib.Pick(r, []string{"GET", "POST", "PUT"}), k, r.Intn(n)))
+		}
+		perm := func() (string, bool) {
+			idx := make([]int, len(blocks))
+			for i := range idx {
+				idx[i] = i
+			}
+			for i := len(idx) - 1; i > 0; i-- {
+				j := r.Intn(i + 1)
+				idx[i], idx[j] = idx[j], idx[i]
+			}
+			pos := make([]int, len(blocks))
+			var sb strings.Builder
+			sb.WriteString("JSIGHT 0.3\n\n")
+			for at, i := range idx {
+				pos[i] = at
+				sb.WriteString(blocks[i] + "\n")
+			}
+			after := false
+			for j := 0; j < n; j++ {
+				if indeg[j] >= 2 {
+					all := true
+					for i := 0; i < n; i++ {
+						for _, e := range edges[i] {
+							if e == j && pos[i] > pos[j] {
+								all = false
+							}
+						}
+					}
+					if all {
+						after = true
+					}
+				}
+			}
+			return sb.String(), after
+		}
+		a, _ := perm()
+		b, after := perm()
+		return &vlib.Case{Project: vlib.SingleFile([]byte(a)), Project2: vlib.SingleFile([]byte(b)),
+			Params: map[string]any{"macros": n, "blocks": len(blocks), "shared": shared, "callee_after_callers": after}}
+	},
+}
+
+func init() { vlib.Register(c15Model, c15Corpus, c15Macros) }
 
 func TestC15(t *testing.T) {
+	t.Run("macro-blocks-permute", c15Macros.Run)
 	t.Run("model-permute", c15Model.Run)
 	t.Run("corpus-permute", c15Corpus.Run)
 }
